@@ -3,7 +3,7 @@ import ast
 
 from . import logic
 from .core import AnalysisError, src, qualname_of, enclosing_function, parents
-from .pysym import SymExec, show, subterms, guards_of
+from .pysym import SymExec, show, subterms, subterms_guarded, guards_of
 from .rules_pyx import N, C, A, MUTATORS
 from . import symcat as sc
 
@@ -134,16 +134,16 @@ def r_client_typestate(repo, rep, files, R='R6.2'):
             if len(calls) > 1:
                 ok_once = False
                 why.append('called %d times on one path' % len(calls))
-            succ_i = None
-            for i, e in enumerate(st.events):
-                if e[0] == 'branch' and e[1][0] == 'call' and e[1][1] == uni and e[2] is True:
-                    succ_i = i
-                    break
+            asked = [st.events[i][1] for i in calls]
+            succeeded = ('or', tuple(logic.formula(c_) for c_ in asked)) if asked else ('const', False)
+            trace = []
             for i, e in enumerate(st.events + [('ret', st.ret or C(None), None)]):
+                eg = list(guards_of(st, e)) if e[0] in ('call', 'getattr') else []
                 for t in (x for x in e[1:-1] if isinstance(x, tuple)):
-                    for s_ in subterms(t):
+                    for s_, g in subterms_guarded(t):
                         if s_[0] == 'sub' and s_[1] == uni:
-                            if succ_i is None or i <= succ_i:
+                            # the read must follow from the tests passed so far plus the short-circuit guards it sits under
+                            if not logic.implied(trace + eg + list(g), succeeded):
                                 ok_guard = False
                                 why.append('binding %s read without a successful match before it' % show(s_[2]))
                             if s_[2][0] != 'const' or s_[2][1] not in allowed:
@@ -152,6 +152,10 @@ def r_client_typestate(repo, rep, files, R='R6.2'):
                         if s_[0] == 'call' and s_[1] != uni and s_ != uni and uni in s_[2] + tuple(v for _, v in s_[3]):
                             ok_escape = False
                             why.append('matcher passed to %s' % show(s_[1]))
+                if e[0] == 'branch':
+                    trace.append((e[1], e[2]))
+                elif e[0] == 'assert':
+                    trace.append((e[1], True))
             if st.ret is not None and uni in set(subterms(st.ret)) and not any(
                     s_[0] == 'sub' and s_[1] == uni for s_ in subterms(st.ret)) and st.ret == uni:
                 ok_escape = False
@@ -363,12 +367,15 @@ def r_hash_order(repo, rep, files, R='R14.2'):
                 terms = [t for e in st.events for t in e[1:-1] if isinstance(t, tuple)] + ([st.ret] if st.ret else [])
                 for t in terms:
                     for comp, parent in _comps_with_parent(t, None):
-                        if comp[0] not in ('listcomp', 'genexp') or not any(set_typed(g[0]) for g in comp[2]):
+                        if comp[0] not in ('listcomp', 'genexp'):
                             continue
                         key = '%s:%s:set-comprehension:%s' % (rel, qualname_of(fn), show(comp[2][0][0])[:40])
                         if key in seen:
                             continue
                         seen.add(key)
+                        n_loops += 1
+                        if not any(set_typed(g[0]) for g in comp[2]):
+                            continue
                         reducing = parent is not None and parent[0] == 'call' and parent[1][0] == 'name' and \
                             parent[1][1] in ('set', 'frozenset', 'sorted', 'any', 'all', 'sum', 'min', 'max', 'len')
                         rep.check(reducing, R, '%s:%s %s' % (rel, fn.lineno, qualname_of(fn)), key,
